@@ -1,5 +1,6 @@
 From BT Require Import Base.Util Base.LE Base.Float Generated.Consts Model.RTree Model.BBIFile Model.BigWigWrite Model.BBIRead
-  Model.BigBedWrite Model.BBIReadBed Model.EntryBBI Proofs.Chunks Proofs.RTreeCodec Proofs.BedQuery Proofs.BedCodec.
+  Model.BigBedWrite Model.BBIReadBed Model.EntryBBI Proofs.Chunks Proofs.RTreeCodec Proofs.BedQuery Proofs.BedCodec
+  Proofs.BedReadInfo Proofs.BedEndToEnd Proofs.BedZoomFit.
 From BT Require Properties.C02.
 Local Open Scope N_scope.
 Check (C02.C02_accept_iff : forall len es, check_entries len es = Ok tt <-> wf_entries len es).
@@ -20,3 +21,25 @@ Check (C02.C02_autosql_nul_refused : forall s, ~ no_nul s -> forall r, bb_schema
 Check (C02.C02_zero_zero_refuted :
   exists bs i, bb_write_nosweep C02.k2_opts [(C02.k2_name, 10)] None C02.k2_input = Ok bs /\ read_info bs = Ok i
                /\ bb_interval idf bs i C02.k2_name 0 10 = Err R_INVALID).
+Check (C02.C02_file_roundtrip : forall (sweep : list bchrom -> summary)
+    (zoom_part : list bchrom -> summary -> N -> N -> res (list N * list zoom_header)),
+  (forall outs sum a b zb zh, zoom_part outs sum a b = Ok (zb, zh) -> (length zh <= 10)%nat) ->
+  forall o sizes autosql input f, bb_write_gen sweep zoom_part o sizes autosql input = Ok f ->
+  file_hyps o sizes input f ->
+  exists i, read_info f = Ok i
+    /\ (forall infl c es, In (c, es) (bruns input) ->
+          exists len, lookup c sizes = Some len /\ bb_interval infl f i c 0 len = Ok es)
+    /\ (Nlen input < U64 -> bb_item_count f i = Ok (Nlen input))
+    /\ bb_autosql f i = Ok (Some (match autosql with Some s => s | None => AUTOSQL_BED3 end))
+    /\ map (fun c => (ci_name c, ci_id c)) (i_chroms i) = combine (map fst (bruns input)) (seqN 0 (length (bruns input)))
+    /\ Forall (fun c => lookup (ci_name c) sizes = Some (ci_len c)) (i_chroms i)).
+Check (C02.C02_runs_are_input : forall input, untag (bruns input) = input).
+Check (C02.C02_written_file_roundtrip : forall two_pass fp o sizes autosql input f,
+  bb_write_either two_pass fp o sizes autosql input = Ok f -> file_hyps o sizes input f ->
+  exists i, read_info f = Ok i
+    /\ (forall infl c es, In (c, es) (bruns input) ->
+          exists len, lookup c sizes = Some len /\ bb_interval infl f i c 0 len = Ok es)
+    /\ (Nlen input < U64 -> bb_item_count f i = Ok (Nlen input))
+    /\ bb_autosql f i = Ok (Some (match autosql with Some s => s | None => AUTOSQL_BED3 end))
+    /\ map (fun c => (ci_name c, ci_id c)) (i_chroms i) = combine (map fst (bruns input)) (seqN 0 (length (bruns input)))
+    /\ Forall (fun c => lookup (ci_name c) sizes = Some (ci_len c)) (i_chroms i)).
